@@ -112,4 +112,55 @@ def p_c08(run):
     run.notes.append("every script run under valgrind memcheck with key, tweak, counter, input and tweak-array bytes marked "
                      "undefined: any conditional jump or address computed from them is reported")
 
-PROPS = {"C08": p_c08, "C11": p_c11, "C12": p_c12}
+# ---------------------------------------------------------------- C18
+def p_c18(run):
+    import json, tempfile
+    # (T) inventory of objects with static storage duration, regenerated from the current source; obligation: all const
+    v0 = C.build_variant(run.work, "native", "gcc", "-O2")
+    gen = os.path.join(run.work.dir, "gen"); os.makedirs(gen, exist_ok=True)
+    mutable = []
+    for name, flags in (("native", []), ("nosimd", ["-DSKINNY_C_VERIF", "-DSKINNY_C_VERIF_VEC128=0", "-DSKINNY_C_VERIF_VEC256=0"]),
+                        ("w32neutral", ["-DSKINNY_C_VERIF", "-DSKINNY_C_VERIF_64BIT=0", "-DSKINNY_C_VERIF_LITTLE_ENDIAN=0",
+                                        "-DSKINNY_C_VERIF_VEC128=0", "-DSKINNY_C_VERIF_VEC256=0"])):
+        gv = os.path.join(gen, "Globals_%s.v" % name)
+        rc, out, err = C.sh(["python3", os.path.join(C.VERIF, "translator", "globals.py"), v0.dir, gv] + flags)
+        if rc != 0:
+            run.add_violation({"property": "C18", "kind": "translator", "what": "globals.py cannot process the source (%s)" % name,
+                               "log": (out + err)[-2000:]}, no_input=True)
+            continue
+        rc2, out2, err2 = C.sh(["coqc", gv], cwd=gen, timeout=300)
+        run.stats["oracle_checks"] += 1
+        run.notes.append("Globals_%s.v: %s; no_mutable_globals %s" % (name, out.strip().splitlines()[0], "proved" if rc2 == 0 else "FAILED"))
+        if rc2 != 0:
+            mutable.append((name, [l for l in out.splitlines() if l.startswith("MUTABLE")]))
+    # (C) thread-sanitizer runs: concurrent inits, distinct objects in >= 8 threads, shared read-only objects
+    found_race = False
+    builds = [("native", "gcc", "-O2"), ("nosimd", "gcc", "-O1")] if run.tier == "quick" else \
+             [("native", "gcc", "-O2"), ("nosimd", "gcc", "-O1"), ("native", "clang", "-O2"), ("w32", "gcc", "-O0"), ("neutral", "clang", "-O1")]
+    for cfg, cc, opt in builds:
+        v = C.build_variant(run.work, cfg, cc, opt, "tsan")
+        exe = os.path.join(v.dir, "threads")
+        rc, out, err = C.sh([cc, opt, "-g", "-fsanitize=thread", "-I" + os.path.join(v.dir, "include"), "-o", exe,
+                             os.path.join(C.HARNESS, "threads.c"), os.path.join(v.dir, "src", "libskinny.a"), "-lpthread"])
+        if rc != 0:
+            raise C.BuildError(v.name + "+threads", out + err)
+        env = dict(os.environ, TSAN_OPTIONS="exitcode=66:halt_on_error=0")
+        for nth, iters in ((8, 40), (16, 20), (3, 60)) if run.tier == "quick" else ((8, 200), (16, 100), (32, 40), (2, 400)):
+            p = subprocess.run([exe, str(nth), str(iters)], capture_output=True, text=True, env=env, timeout=1200)
+            run.stats["scripts"] += 1; run.stats["ops"] += nth * iters * 40; run.stats["variants"].add(v.name)
+            run.stats["shapes"].add("threads %d x %d on %s" % (nth, iters, v.name)); run.stats["oracle_checks"] += 1
+            if len(run.samples) < 3:
+                run.samples.append({"cmd": "threads %d %d" % (nth, iters), "variant": v.name, "output": p.stdout.splitlines()[:3]})
+            if p.returncode != 0 or "MISMATCH" in p.stdout or "ThreadSanitizer" in p.stderr:
+                found_race = True
+                run.add_violation({"property": "C18", "kind": "data race / thread-dependent result",
+                                   "what": "concurrent use differs from sequential use or ThreadSanitizer reports a race",
+                                   "variant": v.name, "cmd": "harness/threads.c %d %d (TSan build)" % (nth, iters),
+                                   "stdout": p.stdout.splitlines()[:20], "stderr": p.stderr.splitlines()[:40]})
+                break
+    for name, muts in mutable:
+        run.add_violation({"property": "C18", "kind": "proof", "what": "Theorem no_mutable_globals (generated Globals_%s.v) no longer holds: "
+                           "the library defines mutable objects with static storage duration" % name, "objects": muts},
+                          no_input=not found_race)
+
+PROPS = {"C08": p_c08, "C11": p_c11, "C12": p_c12, "C18": p_c18}
